@@ -9,12 +9,18 @@ import (
 // ---------- C07: a sized IP pool never grows beyond its size ----------
 
 type ObsC07 struct {
-	base     map[string]int // count at the start of the current op / episode
-	maxSize  map[string]int // largest size in force (truth or lister) seen during the current op / episode
-	undef    map[string]bool
-	started  bool
-	Overlap  bool
-	PreAlloc bool
+	// pendMax / pendUndef: largest size in force (resp. "no Pool object") seen while some pod of the pool had a successful
+	// filter whose bind is still to come. A scheduling attempt is filter + bind: the size in force when the filter
+	// approved the pod still counts when its bind allocates.
+	pendMax       map[string]int
+	pendUndef     map[string]bool
+	noOutstanding map[string]bool
+	base          map[string]int // count at the start of the current op / episode
+	maxSize       map[string]int // largest size in force (truth or lister) seen during the current op / episode
+	undef         map[string]bool
+	started       bool
+	Overlap       bool
+	PreAlloc      bool
 }
 
 func (o *ObsC07) pools(x *Exec) []string {
@@ -40,9 +46,32 @@ func countPrefix(alloc map[string]SnapFIP, prefix string) int {
 }
 
 func (o *ObsC07) sample(x *Exec) {
+	if o.pendMax == nil {
+		o.pendMax, o.pendUndef, o.noOutstanding = map[string]int{}, map[string]bool{}, map[string]bool{}
+	}
+	outstanding := map[string]bool{}
+	x.W.mu.Lock()
+	for _, rec := range x.W.Pods {
+		if len(rec.Filtered) > 0 && !rec.Bound && rec.WL < len(x.C.WLs) {
+			outstanding[x.C.WLs[rec.WL].Pool] = true
+		}
+	}
+	x.W.mu.Unlock()
 	for _, p := range o.pools(x) {
 		st, okT := x.W.PoolSizeTruth(p)
 		sv, okV := x.W.PoolSizeView(p)
+		o.noOutstanding[p] = !outstanding[p]
+		if outstanding[p] {
+			if !okT || !okV {
+				o.pendUndef[p] = true
+			}
+			if okT && st > o.pendMax[p] {
+				o.pendMax[p] = st
+			}
+			if okV && sv > o.pendMax[p] {
+				o.pendMax[p] = sv
+			}
+		}
 		if !okT || !okV {
 			o.undef[p] = true // without a Pool object the cap is the deployment's replicas, not a pool size
 		}
@@ -73,7 +102,7 @@ func (o *ObsC07) check(x *Exec) *vcore.Failure {
 		return nil
 	}
 	for _, p := range o.pools(x) {
-		if o.undef[p] {
+		if o.undef[p] || o.pendUndef[p] {
 			continue
 		}
 		n := 0
@@ -85,6 +114,9 @@ func (o *ObsC07) check(x *Exec) *vcore.Failure {
 		limit := o.maxSize[p]
 		if o.base[p] > limit {
 			limit = o.base[p]
+		}
+		if o.pendMax[p] > limit {
+			limit = o.pendMax[p]
 		}
 		if n > limit {
 			return vcore.Failf("c07:over_size", "pool %s holds %d IPs; size in force is at most %d and it held %d when the operation(s) started",
@@ -111,6 +143,13 @@ func (o *ObsC07) AfterOp(x *Exec, i int, op Op, res *OpResult) *vcore.Failure {
 	f := o.check(x)
 	if !x.InEpisode && !res.Concurrent {
 		o.started = false
+		// the window of a scheduling attempt closes once no pod of the pool waits for its bind any more
+		for p, none := range o.noOutstanding {
+			if none {
+				delete(o.pendMax, p)
+				delete(o.pendUndef, p)
+			}
+		}
 	}
 	return f
 }
